@@ -127,6 +127,84 @@ type finishedSite struct {
 	pull   *ssa.Call
 	repull bool
 	rule   PullRule
+	// set when the pull and the assertion sit in a helper that hands the message back: the
+	// call of that helper in fn, and the message there
+	via *ssa.Call
+	val ssa.Value
+}
+
+// at: where the site is, for a report.
+func (fs finishedSite) at() ssa.Instruction {
+	if fs.via != nil {
+		return fs.via
+	}
+	return fs.ta
+}
+
+// isParser12: the (Flight, *Alert, error) shape of a flight parser.
+func isParser12(fn *ssa.Function) bool {
+	res := fn.Signature.Results()
+	return res.Len() == 3 && strings.HasSuffix(namedOrType(res.At(0).Type()), ".Flight")
+}
+
+// liftFinishedSite: a site in a helper that is not a parser itself and returns the message is
+// judged where the helper is called: one site per call, with the start of the pull taken from
+// the call's argument when the helper pulls at a sequence it is handed.
+func (c *Ctx) liftFinishedSite(fs finishedSite, d int) []finishedSite {
+	g := fs.fn
+	if isParser12(g) || d > 1 {
+		return []finishedSite{fs}
+	}
+	var msg ssa.Value = fs.ta
+	if fs.val != nil {
+		msg = fs.val
+	} else if fs.ta.CommaOk {
+		msg = nil
+		for _, ref := range *fs.ta.Referrers() {
+			if ex, ok := ref.(*ssa.Extract); ok && ex.Index == 0 {
+				msg = ex
+			}
+		}
+	}
+	idx := -1
+	for _, b := range g.Blocks {
+		if ret, ok := b.Instrs[len(b.Instrs)-1].(*ssa.Return); ok {
+			for i, rv := range ret.Results {
+				if msg != nil && sameValue(unspill(rv), msg) {
+					idx = i
+				}
+				for _, l := range c.Origins(unspill(rv), 0) {
+					if msg != nil && sameValue(l, msg) {
+						idx = i
+					}
+				}
+			}
+		}
+	}
+	sites, closed := c.staticCallers(g)
+	if idx < 0 || !closed || len(sites) == 0 {
+		return []finishedSite{fs}
+	}
+	var out []finishedSite
+	for _, cs := range sites {
+		call, ok := cs.Call.(*ssa.Call)
+		if !ok {
+			return []finishedSite{fs}
+		}
+		n := fs
+		n.fn, n.via = cs.Fn, call
+		n.val = resultValue(call, idx)
+		if fs.pull != nil {
+			if p, isP := callArg(&fs.pull.Call, 0).(*ssa.Parameter); isP && p.Parent() == g {
+				if pi := paramIndex(p); pi >= 0 && pi < len(call.Call.Args) {
+					bo, isBo := call.Call.Args[pi].(*ssa.BinOp)
+					n.repull = isBo && bo.Op == token.SUB
+				}
+			}
+		}
+		out = append(out, c.liftFinishedSite(n, d+1)...)
+	}
+	return out
 }
 
 // finishedSites finds every type assertion to *handshake.MessageFinished on a
@@ -161,7 +239,7 @@ func (c *Ctx) finishedSites(fns []*ssa.Function) []finishedSite {
 						}
 					}
 				}
-				out = append(out, fs)
+				out = append(out, c.liftFinishedSite(fs, 0)...)
 			}
 		}
 	}
@@ -221,11 +299,11 @@ func ruleFinishedCompare(c *Ctx, r *Report) {
 		r.Sites += len(fs.fn.Blocks)
 		key := short(fs.fn)
 		if fs.pull == nil {
-			r.Unk(rule, key, c.ipos(fs.ta), "cannot relate the Finished message to the cache pull that produced it")
+			r.Unk(rule, key, c.ipos(fs.at()), "cannot relate the Finished message to the cache pull that produced it")
 			continue
 		}
 		if fs.repull {
-			r.Note(rule, key, c.ipos(fs.ta), "re-pull below the receive cursor (HandshakeRecvSequence-1): retransmission detector of an already verified Finished, exempt")
+			r.Note(rule, key, c.ipos(fs.at()), "re-pull below the receive cursor (HandshakeRecvSequence-1): retransmission detector of an already verified Finished, exempt")
 			continue
 		}
 		first++
@@ -237,7 +315,9 @@ func ruleFinishedCompare(c *Ctx, r *Report) {
 func (c *Ctx) checkFinishedSite(r *Report, rule, key string, fs finishedSite) {
 	fn := fs.fn
 	var finishedVal ssa.Value = fs.ta
-	if fs.ta.CommaOk {
+	if fs.val != nil {
+		finishedVal = fs.val
+	} else if fs.ta.CommaOk {
 		finishedVal = nil
 		for _, ref := range *fs.ta.Referrers() {
 			if ex, ok := ref.(*ssa.Extract); ok && ex.Index == 0 {
@@ -245,35 +325,85 @@ func (c *Ctx) checkFinishedSite(r *Report, rule, key string, fs finishedSite) {
 			}
 		}
 	}
-	// equality calls comparing finished.VerifyData with PRF output
-	var eq *ssa.Call
-	var prfCall *ssa.Call
-	for _, ci := range callsIn(fn, nameIs("bytes.Equal", "crypto/hmac.Equal", "crypto/subtle.ConstantTimeCompare")) {
-		call, ok := ci.(*ssa.Call)
-		if !ok {
-			continue
-		}
-		var vdSide, prfSide bool
-		var pc *ssa.Call
-		for _, a := range call.Call.Args {
-			for _, l := range c.Origins(a, 0) {
-				if o, f, base, ok := fieldLoad(l); ok && o == "pkg/protocol/handshake.MessageFinished" && f == "VerifyData" && finishedVal != nil && sameValue(base, finishedVal) {
-					vdSide = true
-				}
-				if isCallResult(l, nameIs("pkg/crypto/prf.VerifyDataClient", "pkg/crypto/prf.VerifyDataServer")) {
-					prfSide = true
-					if ex, ok := l.(*ssa.Extract); ok {
-						pc = ex.Tuple.(*ssa.Call)
+	// equality calls comparing finished.VerifyData with PRF output: in host, where msg is the
+	// Finished message
+	compareIn := func(host *ssa.Function, msg ssa.Value) (eq, prfCall *ssa.Call) {
+		for _, ci := range callsIn(host, nameIs("bytes.Equal", "crypto/hmac.Equal", "crypto/subtle.ConstantTimeCompare")) {
+			call, ok := ci.(*ssa.Call)
+			if !ok {
+				continue
+			}
+			var vdSide, prfSide bool
+			var pc *ssa.Call
+			for _, a := range call.Call.Args {
+				for _, l := range c.Origins(a, 0) {
+					if o, f, base, ok := fieldLoad(l); ok && o == "pkg/protocol/handshake.MessageFinished" && f == "VerifyData" && msg != nil && sameValue(base, msg) {
+						vdSide = true
+					}
+					if isCallResult(l, nameIs("pkg/crypto/prf.VerifyDataClient", "pkg/crypto/prf.VerifyDataServer")) {
+						prfSide = true
+						if ex, ok := l.(*ssa.Extract); ok {
+							pc = ex.Tuple.(*ssa.Call)
+						}
 					}
 				}
 			}
+			if vdSide && prfSide {
+				eq, prfCall = call, pc
+			}
 		}
-		if vdSide && prfSide {
-			eq, prfCall = call, pc
+		return eq, prfCall
+	}
+	eq, prfCall := compareIn(fn, finishedVal)
+	// ... or in a helper of the package that is handed the message and answers with an error
+	// unless the comparison succeeded: the helper's call then stands for the comparison
+	var guard ssa.Instruction = eq
+	var guardVal ssa.Value = eq
+	var verifier *ssa.Call
+	if eq == nil && finishedVal != nil {
+		for _, hc := range findCalls(fn, func(string) bool { return true }) {
+			h := hc.Call.StaticCallee()
+			if h == nil || h.Pkg != fn.Pkg || len(h.Blocks) == 0 || errResult(hc) == nil {
+				continue
+			}
+			for i, a := range hc.Call.Args {
+				if !sameValue(a, finishedVal) || i >= len(h.Params) {
+					continue
+				}
+				heq, hprf := compareIn(h, h.Params[i])
+				if heq == nil {
+					continue
+				}
+				// every return of the helper that may carry a nil error follows the comparison
+				// having succeeded
+				faithful := true
+				for _, b := range h.Blocks {
+					ret, isRet := b.Instrs[len(b.Instrs)-1].(*ssa.Return)
+					if !isRet {
+						continue
+					}
+					if g, _ := guardedBy(heq, heq, ret); g {
+						continue
+					}
+					w := (&Walk{Fn: h}).FromEntry()
+					for _, ro := range w.Returns {
+						last := len(ro.Vals) - 1
+						if ro.Ret == ret && !(ro.Vals[last].Kind == 2 && !ro.Vals[last].B) {
+							faithful = false
+						}
+					}
+				}
+				if !faithful {
+					r.Bad(rule, key+":verifier", c.ipos(heq), "the helper that compares the verify_data can return without an error although the comparison failed or was skipped")
+					continue
+				}
+				eq, prfCall, verifier = heq, hprf, hc
+				guard, guardVal = hc, errResult(hc)
+			}
 		}
 	}
 	if eq == nil {
-		r.Bad(rule, key, c.ipos(fs.ta), "the peer's Finished is consumed here (first pull at the receive cursor) but its verify_data is never compared with prf.VerifyData{Client,Server}(...): handshake completes without binding to the transcript")
+		r.Bad(rule, key, c.ipos(fs.at()), "the peer's Finished is consumed here (first pull at the receive cursor) but its verify_data is never compared with prf.VerifyData{Client,Server}(...): handshake completes without binding to the transcript")
 		return
 	}
 	// every advancing exit must be guarded by the comparison succeeding
@@ -296,13 +426,13 @@ func (c *Ctx) checkFinishedSite(r *Report, rule, key string, fs finishedSite) {
 				}
 			}
 		}
-		if ok, why := guardedBy(eq, eq, ret); !ok {
+		if ok, why := guardedBy(guard, guardVal, ret); !ok {
 			allOK = false
 			r.Bad(rule, key+":exit", c.ipos(ret), "advancing return not guarded by the verify_data comparison at "+c.ipos(eq)+": "+why)
 		}
 	}
 	if nExit == 0 {
-		r.Unk(rule, key, c.ipos(fs.ta), "no advancing exit found after the Finished pull")
+		r.Unk(rule, key, c.ipos(fs.at()), "no advancing exit found after the Finished pull")
 		return
 	}
 	if allOK {
@@ -324,13 +454,62 @@ func (c *Ctx) checkFinishedSite(r *Report, rule, key string, fs finishedSite) {
 	// transcript
 	var rules []PullRule
 	found := false
+	var transcript []ssa.Value
 	for _, l := range c.Origins(prfCall.Call.Args[1], 0) {
+		// handed to the comparing helper: what the parser passes
+		if p, isP := l.(*ssa.Parameter); isP && verifier != nil && p.Parent() == verifier.Call.StaticCallee() {
+			if pi := paramIndex(p); pi >= 0 && pi < len(verifier.Call.Args) {
+				transcript = append(transcript, c.Origins(verifier.Call.Args[pi], 0)...)
+				continue
+			}
+		}
+		transcript = append(transcript, l)
+	}
+	for _, l := range transcript {
 		if call, ok := l.(*ssa.Call); ok && strings.HasSuffix(calleeName(&call.Call), "Cache).PullAndMerge") {
 			args := call.Call.Args
 			if rl, ok := c.ruleList(args[len(args)-1], 0); ok {
 				rules, found = rl, true
 			}
 		}
+	}
+	// ... the whole of it: the merged messages reach the PRF uncut
+	var cutAt ssa.Instruction
+	var uncut func(v ssa.Value, d int)
+	seenT := map[ssa.Value]bool{}
+	uncut = func(v ssa.Value, d int) {
+		if d > 8 || seenT[v] {
+			return
+		}
+		seenT[v] = true
+		switch x := cellValue(v).(type) {
+		case *ssa.Slice:
+			if x.Low != nil || x.High != nil {
+				if k, isK := constInt(x.Low); x.High == nil && isK && k == 0 {
+					uncut(x.X, d+1)
+				} else {
+					cutAt = x
+				}
+				return
+			}
+			uncut(x.X, d+1)
+		case *ssa.Phi:
+			for _, e := range x.Edges {
+				uncut(e, d+1)
+			}
+		case *ssa.ChangeType:
+			uncut(x.X, d+1)
+		case *ssa.Parameter:
+			if verifier != nil && x.Parent() == verifier.Call.StaticCallee() {
+				if pi := paramIndex(x); pi >= 0 && pi < len(verifier.Call.Args) {
+					uncut(verifier.Call.Args[pi], d+1)
+				}
+			}
+		}
+	}
+	uncut(prfCall.Call.Args[1], 0)
+	if cutAt != nil {
+		r.Bad("finished-transcript", key+":whole", c.ipos(cutAt), "the expected verify_data is computed over a part of the merged handshake messages only (the transcript is sliced on its way to the PRF)")
 	}
 	if !found {
 		r.Unk("finished-transcript", key, c.ipos(prfCall), "transcript argument is not a resolvable Cache.PullAndMerge rule list")
